@@ -26,7 +26,11 @@ func (s *Subscription) VerifDrain() (out []*bstream.PreprocessedBlock) {
 func (s *Subscription) VerifCap() int { return cap(s.blocks) }
 
 // VerifSubscribers returns how many subscriptions are registered.
-func (h *ForkableHub) VerifSubscribers() int { return len(h.subscribers) }
+func (h *ForkableHub) VerifSubscribers() int {
+	h.subscribersLock.Lock()
+	defer h.subscribersLock.Unlock()
+	return len(h.subscribers)
+}
 
 // VerifForkable exposes the hub's Forkable for read-only lookups.
 func (h *ForkableHub) VerifForkable() *forkable.Forkable { return h.forkable }
